@@ -250,13 +250,9 @@ func c08Gen(r *common.Rand, reg c14Registry, kf03Open bool, realClock bool, firs
 					return drive.StatusOf(err)
 				},
 				apply: func(reg c14Registry) { reg[name].Families[f] = g }}
-		default:
-			dropPoints := metaPoints
-			if kf03Open {
-				// known finding KF03: a kill inside the metadata write of a family drop leaves the rows purged but the
-				// family listed; kept out of the enumerated crash points, reproduced by the canary
-				dropPoints = nil
-			}
+		case r.Bool():
+			// the definition is persisted first, then the cells are purged row by row: kill inside either step
+			dropPoints := append(append([]string{}, metaPoints...), "purge.afterRow")
 			return c08Req{desc: fmt.Sprintf("ModifyColumnFamilies(%s, drop %s)", id, f), valid: true, crashPoints: dropPoints,
 				send: func(s *drive.Srv) drive.Status {
 					ctx, cancel := drive.Ctx()
@@ -270,6 +266,71 @@ func c08Gen(r *common.Rand, reg c14Registry, kf03Open bool, realClock bool, firs
 					for key, row := range t.Rows {
 						delete(row, f)
 						t.Commit(key, row)
+					}
+				}}
+		default:
+			// one request with 2-3 modifications (valid as a whole): all of them or none must survive a kill
+			type mod struct {
+				kind string
+				f    string
+				g    *model.GcRule
+			}
+			have := map[string]bool{}
+			for fam := range m.Families {
+				have[fam] = true
+			}
+			var mods []mod
+			droppedIds := map[string]bool{}
+			recreate := false
+			var pmods []*btapb.ModifyColumnFamiliesRequest_Modification
+			desc := fmt.Sprintf("ModifyColumnFamilies(%s,", id)
+			for i, n := 0, r.Range(2, 3); i < n; i++ {
+				fam := common.Pick(r, c14FamPool[:3])
+				rule := c14RandGc(r)
+				switch {
+				case !have[fam]:
+					mods = append(mods, mod{"create", fam, rule})
+					have[fam] = true
+					recreate = recreate || droppedIds[fam]
+					pmods = append(pmods, &btapb.ModifyColumnFamiliesRequest_Modification{Id: fam, Mod: &btapb.ModifyColumnFamiliesRequest_Modification_Create{Create: &btapb.ColumnFamily{GcRule: drive.GcToProto(rule)}}})
+					desc += fmt.Sprintf(" create %s=%s", fam, rule)
+				case r.Chance(2, 3):
+					mods = append(mods, mod{"drop", fam, nil})
+					delete(have, fam)
+					droppedIds[fam] = true
+					pmods = append(pmods, &btapb.ModifyColumnFamiliesRequest_Modification{Id: fam, Mod: &btapb.ModifyColumnFamiliesRequest_Modification_Drop{Drop: true}})
+					desc += fmt.Sprintf(" drop %s", fam)
+				default:
+					mods = append(mods, mod{"update", fam, rule})
+					pmods = append(pmods, &btapb.ModifyColumnFamiliesRequest_Modification{Id: fam, Mod: &btapb.ModifyColumnFamiliesRequest_Modification_Update{Update: &btapb.ColumnFamily{GcRule: drive.GcToProto(rule)}}})
+					desc += fmt.Sprintf(" update %s=%s", fam, rule)
+				}
+			}
+			points := append(append([]string{}, metaPoints...), "purge.afterRow")
+			if recreate && kf03Open {
+				// known finding KF03: a request that drops a family and creates it again purges the old cells before
+				// the definition is persisted; kept out of the enumerated crash points, reproduced by the canary
+				points = nil
+			}
+			return c08Req{desc: desc + ")", valid: true, crashPoints: points,
+				send: func(s *drive.Srv) drive.Status {
+					ctx, cancel := drive.Ctx()
+					defer cancel()
+					_, err := s.Admin.ModifyColumnFamilies(ctx, &btapb.ModifyColumnFamiliesRequest{Name: name, Modifications: pmods})
+					return drive.StatusOf(err)
+				},
+				apply: func(reg c14Registry) {
+					t := reg[name]
+					for _, mo := range mods {
+						if mo.kind == "drop" {
+							delete(t.Families, mo.f)
+							for key, row := range t.Rows {
+								delete(row, mo.f)
+								t.Commit(key, row)
+							}
+						} else {
+							t.Families[mo.f] = mo.g
+						}
 					}
 				}}
 		}
@@ -367,7 +428,7 @@ func c08VerifyImage(tag, image string, candidates []c14Registry) string {
 }
 
 func runC08(run *common.Run) {
-	run.Rule = "case = one crash image of the on-disk storage directory of a child emulator process driven by a generated admin+data program (CreateTable with GC rules, MutateRow, DropRowRange prefix/all, ModifyColumnFamilies create/update/drop, DeleteTable, re-create): (boundary) the process is frozen with SIGSTOP between two requests and the directory copied; (point) the process freezes itself at an instrumented point inside SetTableMeta / Create / Clear while a request is in flight, the directory is copied and the process killed; (cycle) after such a kill the live directory is restarted and the program continues, up to 5 times; (clean) clean Server.Close stop; (real) the real cbtemulator -dir binary killed with SIGKILL between requests and restarted; (syskill) the child runs under strace and is killed at its N-th unlinkat / rename / mkdir system call, N = 1, 2, ..., over one program in which every fourth request clears a table, then restarted. Each image is verified by starting a fresh emulator process on a private copy: it must come up, and ListTables/GetTable/full scans/NotFound probes must equal the acknowledged model, the in-flight request being wholly applied or wholly absent. Non-trivial = image taken when the model held at least one table with rows and either a request was in flight or an earlier request had removed something (rows, family, table); distinct by image."
+	run.Rule = "case = one crash image of the on-disk storage directory of a child emulator process driven by a generated admin+data program (CreateTable with GC rules, MutateRow, DropRowRange prefix/all, ModifyColumnFamilies create/update/drop and multi-modification requests, DeleteTable, re-create): (boundary) the process is frozen with SIGSTOP between two requests and the directory copied; (point) the process freezes itself at an instrumented point inside SetTableMeta / Create / Clear / the row-by-row purge of a dropped family while a request is in flight, the directory is copied and the process killed; (cycle) after such a kill the live directory is restarted and the program continues, up to 5 times; (clean) clean Server.Close stop; (real) the real cbtemulator -dir binary killed with SIGKILL between requests and restarted; (syskill) the child runs under strace and is killed at its N-th unlinkat / rename / mkdir system call, N = 1, 2, ..., over one program in which every fourth request clears a table, then restarted. Each image is verified by starting a fresh emulator process on a private copy: it must come up, and ListTables/GetTable/full scans/NotFound probes must equal the acknowledged model, the in-flight request being wholly applied or wholly absent. Non-trivial = image taken when the model held at least one table with rows and either a request was in flight or an earlier request had removed something (rows, family, table); distinct by image."
 	run.Assumptions = []string{"process death only (SIGSTOP image = what kill -9 leaves: completed syscalls persist); power loss / unsynced page cache is out of scope", "crash points = request boundaries + the instrumented points; kills inside leveldb's own write path are not enumerated"}
 	nprog := run.N(12, 300)
 	scratch, err := os.MkdirTemp("", "verif-c08-")
@@ -462,8 +523,8 @@ func c08Program(run *common.Run, p int, base string) {
 		if len(req.crashPoints) > 0 && req.valid && (step+pointTurn)%2 == 0 && cycles < 5 {
 			point := common.Pick(r, req.crashPoints)
 			nth := 1
-			if point == "disk.nuke.afterRemove" || point == "disk.open.afterOpen" {
-				nth = 1
+			if point == "purge.afterRow" {
+				nth = r.Range(1, 3) // after the first, second or third purged row
 			}
 			s.child.send(fmt.Sprintf("arm %s %d", point, nth))
 			if l, err := s.child.readLine(30 * time.Second); err != nil || l != "ARMED" {
@@ -578,7 +639,8 @@ func c08Size(reg c14Registry) int {
 	return n
 }
 
-// c08DropFamilyCanary: fixed reproducer of KF03.
+// c08DropFamilyCanary: fixed reproducer of KF03 (drop and re-create of one family in one request, killed inside the
+// metadata write).
 func c08DropFamilyCanary(base string) (bool, string) {
 	live := filepath.Join(base, "live")
 	_ = os.MkdirAll(live, 0o777)
@@ -596,14 +658,17 @@ func c08DropFamilyCanary(base string) (bool, string) {
 	_, nr := pre[name].Apply("a", muts, gen.BaseClock)
 	pre[name].Commit("a", nr)
 	post := c08CloneReg(pre)
-	delete(post[name].Families, "f1")
+	newRule := &model.GcRule{Kind: model.GcMaxVersions, N: 2}
+	post[name].Families["f1"] = newRule
 	delete(post[name].Rows["a"], "f1")
 	s.child.send("arm disk.meta.enter 1")
 	s.child.readLine(30 * time.Second)
 	go func() {
 		ctx, cancel := drive.Ctx()
 		defer cancel()
-		s.srv.Admin.ModifyColumnFamilies(ctx, &btapb.ModifyColumnFamiliesRequest{Name: name, Modifications: []*btapb.ModifyColumnFamiliesRequest_Modification{{Id: "f1", Mod: &btapb.ModifyColumnFamiliesRequest_Modification_Drop{Drop: true}}}})
+		s.srv.Admin.ModifyColumnFamilies(ctx, &btapb.ModifyColumnFamiliesRequest{Name: name, Modifications: []*btapb.ModifyColumnFamiliesRequest_Modification{
+			{Id: "f1", Mod: &btapb.ModifyColumnFamiliesRequest_Modification_Drop{Drop: true}},
+			{Id: "f1", Mod: &btapb.ModifyColumnFamiliesRequest_Modification_Create{Create: &btapb.ColumnFamily{GcRule: drive.GcToProto(newRule)}}}}})
 	}()
 	if l, _ := s.child.readLine(60 * time.Second); !strings.HasPrefix(l, "STOPPED") {
 		return false, "crash point not reached: " + l
